@@ -580,6 +580,18 @@ def narrowing_of_lengths(f, key, inst):
                     if t["dest"]["local"] not in tainted:
                         tainted.add(t["dest"]["local"])
                         changed = True
+    # locals that hold a right-shifted value (directly or through the value half of a checked shift)
+    shifted = set()
+    for b in body["blocks"]:
+        for st in b["stmts"]:
+            if st["k"] == "assign" and not st["place"]["proj"]:
+                rv = st["rv"]
+                if rv["k"] == "binop" and rv["op"] in ("shr", "shr_unchecked"):
+                    shifted.add(st["place"]["local"])
+                elif rv["k"] in ("use",) and (rv["op"].get("copy") or rv["op"].get("move")) is not None:
+                    src = rv["op"].get("copy") or rv["op"].get("move")
+                    if src["local"] in shifted:
+                        shifted.add(st["place"]["local"])
     for b in body["blocks"]:
         for st in b["stmts"]:
             if st["k"] == "assign" and st["rv"]["k"] == "cast" and st["rv"]["cast"] == "int_to_int":
@@ -587,6 +599,8 @@ def narrowing_of_lengths(f, key, inst):
                 tf, tt = f.types[rv["from"]], f.types[rv["to"]]
                 if tf["kind"] == "int" and tt["kind"] == "int" and tt["bits"] < tf["bits"]:
                     pl = rv["op"].get("copy") or rv["op"].get("move")
+                    if tt["bits"] == 8 and pl is not None and not pl["proj"] and pl["local"] in shifted:
+                        continue        # (x >> k) as u8: byte-wise serialisation of the value, nothing is lost
                     if pl is not None and ((pl["local"] in tainted and (not pl["proj"] or checked_pair(pl))) or place_is_counter(pl)):
                         out.append("%s -> %s at line %s" % (rv["from"], rv["to"], st.get("line")))
     return out
